@@ -194,8 +194,18 @@ func TestC09_ArbitraryWeights(t *testing.T) {
 
 // (C) hand-built messages mixing binCounts and contiguousBinCounts.
 func TestC09_HandBuilt(t *testing.T) {
-	rapid.Check(t, func(t *rapid.T) {
-		cl := newCase("C09")
+	rapid.Check(t, func(t *rapid.T) { handBuiltMessages(t, "C09") })
+}
+
+// TestC04_HandBuiltMessages: the same hand-built messages counted under C04 (what a store holds after MergeWithProto
+// or FromProto of a message is the sum of the message's contributions, whatever zeros and runs it contains).
+func TestC04_HandBuiltMessages(t *testing.T) {
+	rapid.Check(t, func(t *rapid.T) { handBuiltMessages(t, "C04") })
+}
+
+func handBuiltMessages(t *rapid.T, prop string) {
+	{
+		cl := newCase(prop)
 		spec, m := buildMapping(t, 1e-3, 0.3)
 		bud := model.NewBudget(gen.Quantum)
 		// indexes in the message must be indexes of the mapping
@@ -314,7 +324,7 @@ func TestC09_HandBuilt(t *testing.T) {
 			t.Fatalf("C09/C: FromProto accepted a message without mapping")
 		}
 		cl.done(len(posExp) > 0 && len(negExp) > 0 || len(posExp)+len(negExp) >= 3)
-	})
+	}
 }
 
 var _ = fmt.Sprintf
